@@ -47,9 +47,66 @@ type mCaseC42 struct {
 	Trees   []mTreeC42 `json:"trees"`
 	Batches [][]int    `json:"batches"` // root tree indices per FindUsedBlobs call (same blob set)
 	Conns   uint       `json:"conns"`
+	Wide    bool       `json:"wide,omitempty"`
+}
+
+// genWideC42 draws the "wide" shape: one root with 15-60 direct or second-level subtrees, a
+// large drawn fraction of which (sometimes all) is reported as > 50 MiB, so that more huge trees
+// are pending than the queue of the dedicated huge-tree worker holds (10 buffered + 1 in the
+// worker) while ordinary trees wait in the backlog. Every tree has a data blob of its own, so
+// a tree that is silently not loaded shows up in the result set.
+func genWideC42(t *rapid.T) *mCaseC42 {
+	c := &mCaseC42{Conns: uint(rapid.IntRange(1, 5).Draw(t, "conns")), Wide: true}
+	n := rapid.IntRange(16, 62).Draw(t, "wide-ntrees")
+	mids := rapid.SampledFrom([]int{0, 0, 1, 2, 3}).Draw(t, "wide-mids")
+	hugePct := rapid.SampledFrom([]int{40, 70, 90, 100, 100}).Draw(t, "wide-hugepct")
+	badRate := rapid.SampledFrom([]int{0, 0, 0, 3}).Draw(t, "wide-badrate")
+	c.Trees = make([]mTreeC42, n)
+	for i := n - 1; i >= 1; i-- {
+		tr := &c.Trees[i]
+		tr.Nodes = []mNodeC42{{Kind: "file", Blobs: []int{100 + i}}}
+		if i > mids && i+1 < n && rapid.IntRange(0, 5).Draw(t, "wide-deeper") == 0 {
+			tr.Nodes = append(tr.Nodes, mNodeC42{Kind: "dir", Sub: rapid.IntRange(i+1, n-1).Draw(t, "wide-sub")})
+		}
+		tr.Huge = rapid.IntRange(0, 99).Draw(t, "wide-huge") < hugePct
+		tr.DelayUs = rapid.SampledFrom([]int{0, 1, 10, 100, 1000}).Draw(t, "wide-delay")
+		if tr.Huge { // the single huge-tree worker is slow relative to the dispatcher
+			tr.DelayUs = rapid.SampledFrom([]int{100, 1000, 2000, 5000}).Draw(t, "wide-hugedelay")
+		}
+		if i > mids && rapid.IntRange(0, 99).Draw(t, "wide-bad") < badRate {
+			if rapid.Bool().Draw(t, "wide-missing") {
+				tr.Missing = true
+			} else {
+				tr.Bad, tr.BadAt = "malformed", rapid.IntRange(0, len(tr.Nodes)).Draw(t, "wide-badat")
+			}
+		}
+	}
+	// leaves hang below the root or below one of the second-level trees
+	for i := n - 1; i > mids; i-- {
+		parent := 0
+		if mids > 0 {
+			parent = rapid.IntRange(0, mids).Draw(t, "wide-parent")
+		}
+		c.Trees[parent].Nodes = append(c.Trees[parent].Nodes, mNodeC42{Kind: "dir", Sub: i})
+	}
+	for m := mids; m >= 1; m-- {
+		c.Trees[0].Nodes = append(c.Trees[0].Nodes, mNodeC42{Kind: "dir", Sub: m})
+	}
+	c.Trees[0].Nodes = append(c.Trees[0].Nodes, mNodeC42{Kind: "file", Blobs: []int{100}})
+	c.Batches = [][]int{{0}}
+	switch rapid.IntRange(0, 3).Draw(t, "wide-roots") {
+	case 0:
+		c.Batches = [][]int{{0, rapid.IntRange(1, n-1).Draw(t, "wide-root2")}}
+	case 1:
+		c.Batches = [][]int{{rapid.IntRange(1, n-1).Draw(t, "wide-first")}, {0}}
+	}
+	return c
 }
 
 func genCaseC42(t *rapid.T) *mCaseC42 {
+	if rapid.IntRange(0, 3).Draw(t, "shape") == 0 {
+		return genWideC42(t)
+	}
 	c := &mCaseC42{Conns: uint(rapid.IntRange(1, 5).Draw(t, "conns"))}
 	n := rapid.IntRange(1, 14).Draw(t, "ntrees")
 	badRate := rapid.SampledFrom([]int{0, 0, 0, 6, 12}).Draw(t, "badrate") // most DAGs are fully valid
@@ -124,6 +181,11 @@ type vLoaderC42 struct {
 	conns  uint
 	maxPar int
 	cur    int
+	// huge trees the dispatcher has looked up (it does so right before queueing a tree) that
+	// have not been loaded yet: 10 in the queue + 1 in the worker + 1 the dispatcher holds
+	hugeAsked      map[restic.ID]bool
+	hugeLoaded     int
+	maxHugePending int
 }
 
 func (l *vLoaderC42) LoadBlob(ctx context.Context, h restic.BlobHandle, _ []byte) ([]byte, error) {
@@ -141,6 +203,9 @@ func (l *vLoaderC42) LoadBlob(ctx context.Context, h restic.BlobHandle, _ []byte
 	}
 	l.mu.Lock()
 	l.cur--
+	if l.hugeAsked[h.ID] {
+		l.hugeLoaded++
+	}
 	buf, ok := l.blobs[h.ID]
 	l.mu.Unlock()
 	if !ok {
@@ -158,6 +223,13 @@ func (l *vLoaderC42) LookupBlobSize(h restic.BlobHandle) (uint, bool) {
 		return 0, false
 	}
 	if l.huge[h.ID] {
+		l.mu.Lock()
+		if l.hugeAsked == nil {
+			l.hugeAsked = map[restic.ID]bool{}
+		}
+		l.hugeAsked[h.ID] = true
+		l.maxHugePending = max(l.maxHugePending, len(l.hugeAsked)-l.hugeLoaded)
+		l.mu.Unlock()
 		return 60 * 1024 * 1024, true
 	}
 	return uint(len(buf)), true
@@ -390,6 +462,12 @@ func checkCaseC42(c *mCaseC42, classes map[string]bool) string {
 	}
 	if l.maxPar > 1 {
 		classes["parallel-loads"] = true
+	}
+	if c.Wide {
+		classes["wide"] = true
+	}
+	if l.maxHugePending >= 12 {
+		classes["huge-pending>=12"] = true // the huge-tree queue was full and the dispatcher had to wait
 	}
 
 	// ---- StreamTrees with a lenient consumer (like the checker): every reachable tree is handed
